@@ -375,6 +375,9 @@ type pstate struct {
 	blk int
 	st  uint64
 	phi uint64 // per tracked boolean φ: 1 + index of the operand selected on this path (0: not yet executed)
+	// facts: per value that is nil-tested by more than one If of the function, what an earlier test on this path
+	// found (0 unknown, 1 nil, 2 non-nil); reset when the value is computed again
+	facts uint64
 }
 
 type Exploration struct {
@@ -456,8 +459,54 @@ func explore(P *Prog, fn *ssa.Function, init uint64, evs []Ev, record func(ssa.I
 			}
 		}
 	}
-	start := pstate{0, init, 0}
-	ex.parent[start] = pstate{-1, 0, 0}
+	// values nil-tested more than once
+	factSlot := map[ssa.Value]int{}
+	{
+		cnt := map[ssa.Value]int{}
+		for _, b := range fn.Blocks {
+			if iff, ok := b.Instrs[len(b.Instrs)-1].(*ssa.If); ok && len(b.Succs) == 2 {
+				if bo, isB := iff.Cond.(*ssa.BinOp); isB && (bo.Op == token.EQL || bo.Op == token.NEQ) {
+					switch {
+					case isNilConst(bo.Y):
+						cnt[bo.X]++
+					case isNilConst(bo.X):
+						cnt[bo.Y]++
+					}
+				}
+			}
+		}
+		for _, b := range fn.Blocks {
+			if iff, ok := b.Instrs[len(b.Instrs)-1].(*ssa.If); ok && len(b.Succs) == 2 {
+				if bo, isB := iff.Cond.(*ssa.BinOp); isB && (bo.Op == token.EQL || bo.Op == token.NEQ) {
+					for _, v := range []ssa.Value{bo.X, bo.Y} {
+						if cnt[v] >= 2 && len(factSlot) < 16 {
+							if _, have := factSlot[v]; !have {
+								factSlot[v] = len(factSlot)
+							}
+						}
+					}
+				}
+			}
+		}
+	}
+	rawNilTest := func(iff *ssa.If) (ssa.Value, bool, bool) { // tested value, "successor 0 is the nil edge"
+		bo, isB := iff.Cond.(*ssa.BinOp)
+		if !isB || (bo.Op != token.EQL && bo.Op != token.NEQ) {
+			return nil, false, false
+		}
+		var t ssa.Value
+		switch {
+		case isNilConst(bo.Y):
+			t = bo.X
+		case isNilConst(bo.X):
+			t = bo.Y
+		default:
+			return nil, false, false
+		}
+		return t, bo.Op == token.EQL, true
+	}
+	start := pstate{0, init, 0, 0}
+	ex.parent[start] = pstate{-1, 0, 0, 0}
 	work := []pstate{start}
 	for len(work) > 0 {
 		cur := work[len(work)-1]
@@ -504,8 +553,38 @@ func explore(P *Prog, fn *ssa.Function, init uint64, evs []Ev, record func(ssa.I
 				}
 			}
 		}
+		facts := cur.facts
+		if len(factSlot) > 0 {
+			for _, ins := range b.Instrs {
+				if v, isV := ins.(ssa.Value); isV {
+					if slot, ok := factSlot[v]; ok {
+						facts = setSt(facts, slot, 0)
+					}
+				}
+			}
+		}
 		var iff *ssa.If
 		feasible := [2]bool{true, true}
+		if x, ok := b.Instrs[len(b.Instrs)-1].(*ssa.If); ok && len(b.Succs) == 2 && len(factSlot) > 0 {
+			if t, nil0, isT := rawNilTest(x); isT {
+				if slot, have := factSlot[t]; have {
+					switch getSt(facts, slot) {
+					case 1: // known nil
+						if nil0 {
+							feasible[1] = false
+						} else {
+							feasible[0] = false
+						}
+					case 2: // known non-nil
+						if nil0 {
+							feasible[0] = false
+						} else {
+							feasible[1] = false
+						}
+					}
+				}
+			}
+		}
 		if len(b.Succs) == 2 && len(ex.phis) > 0 {
 			if x, ok := b.Instrs[len(b.Instrs)-1].(*ssa.If); ok {
 				if v, flip := resolve(x.Cond, cur.phi); v != x.Cond {
@@ -523,7 +602,7 @@ func explore(P *Prog, fn *ssa.Function, init uint64, evs []Ev, record func(ssa.I
 			// a nil test of a value that, on this path, is a known non-nil value or the nil constant
 			if tested, isNil0, isTest := nilTest(x, true); isTest {
 				r := pathResolve(tested)
-				if knownNonNil(r) {
+				if knownNonNil(r) || provedNonNilOnEdge(tested, sel, phiSlot) {
 					if isNil0 {
 						feasible[0] = false
 					} else {
@@ -612,7 +691,19 @@ func explore(P *Prog, fn *ssa.Function, init uint64, evs []Ev, record func(ssa.I
 					}
 				}
 			}
-			nx := pstate{succ.Index, nst, nphi}
+			nfacts := facts
+			if x, ok := b.Instrs[len(b.Instrs)-1].(*ssa.If); ok && len(b.Succs) == 2 && len(factSlot) > 0 {
+				if t, nil0, isT := rawNilTest(x); isT {
+					if slot, have := factSlot[t]; have {
+						if (si == 0) == nil0 {
+							nfacts = setSt(nfacts, slot, 1)
+						} else {
+							nfacts = setSt(nfacts, slot, 2)
+						}
+					}
+				}
+			}
+			nx := pstate{succ.Index, nst, nphi, nfacts}
 			if _, ok := ex.parent[nx]; !ok {
 				ex.parent[nx] = cur
 				work = append(work, nx)
@@ -887,6 +978,52 @@ func anyOf(h []bool) bool {
 		if b {
 			return true
 		}
+	}
+	return false
+}
+
+// provedNonNilOnEdge: the tested value is a φ whose operand selected on this
+// path arrives from a predecessor block that is only reached after that very
+// operand was found non-nil (`if err != nil { res = err; goto done }; …
+// done: if res != nil`): the second test is decided. This is the shape a result
+// variable takes when a helper with early error returns is written — or
+// expanded — in place.
+func provedNonNilOnEdge(tested ssa.Value, sel uint64, phiSlot map[*ssa.Phi]int) bool {
+	for i := 0; i < 4; i++ {
+		phi, ok := tested.(*ssa.Phi)
+		if !ok {
+			return false
+		}
+		slot, tracked := phiSlot[phi]
+		if !tracked {
+			return false
+		}
+		k := int(getSt(sel, slot))
+		if k == 0 || k > len(phi.Edges) || k > len(phi.Block().Preds) {
+			return false
+		}
+		v := phi.Edges[k-1]
+		pred := phi.Block().Preds[k-1]
+		if _, again := v.(*ssa.Phi); !again {
+			// is pred dominated by the non-nil successor of a test of v?
+			for _, b := range phi.Parent().Blocks {
+				iff, isIf := b.Instrs[len(b.Instrs)-1].(*ssa.If)
+				if !isIf || len(b.Succs) != 2 {
+					continue
+				}
+				if t, isNil0, isTest := nilTest(iff, true); isTest && t == v {
+					nn := b.Succs[1]
+					if !isNil0 {
+						nn = b.Succs[0]
+					}
+					if len(nn.Preds) == 1 && nn.Dominates(pred) {
+						return true
+					}
+				}
+			}
+			return false
+		}
+		tested = v
 	}
 	return false
 }
